@@ -705,4 +705,57 @@ def no_axis_extents(repo: Repo) -> RuleRun:
 no_axis_extents.rule_id = "C14.NO-AXIS-EXTENTS"
 
 
-RULES = [edge_set, side_table, uniform, face_symmetry, no_stale_cache, trig_domain, shape_only, stretch_monotone, scale_free_guards, angle_arguments, no_memo, row_norms, centre_symmetric, no_axis_extents]
+
+def quad_normal_symmetric(repo: Repo) -> RuleRun:
+    """'... unchanged ... by renumbering the corners with any orientation-preserving symmetry of the cell': the four side normals of
+    a quadrilateral are built on its face normal, so that normal is the same for the four cyclic renumberings - of a planar quad,
+    of a warped one (a corner lifted out of the plane) and of one with a straight corner, where the triangle at ONE corner has no
+    area at all. QuadCell.normal is evaluated over exact rational corners for all four numberings."""
+    from fractions import Fraction
+
+    from .. import exact
+    from ..peval import NotEvaluable, Obj, Raised
+
+    r = RuleRun(PROP, "C14.QUAD-NORMAL-SYMMETRIC", floor=3, what="QuadCell.normal points the same way (and is not zero) for the four cyclic renumberings of a quad (planar, warped, with a straight corner)")
+    cls = repo.cls("optimize.cell.QuadCell")
+    fn = cls.methods.get("normal")
+    r.require(fn is not None, "QuadCell.normal vanished")
+    quads = {
+        "planar": [(0, 0, 0), (2, 0, 0), (3, 2, 0), (0, 1, 0)],
+        "warped (one corner lifted)": [(0, 0, 0), (1, 0, 0), (1, 1, Fraction(1, 5)), (0, 1, 0)],
+        "with a straight corner": [(0, 0, 0), (1, 0, 0), (2, 0, 0), (1, 2, 0)],
+    }
+    for label, pts in quads.items():
+        got = []
+        for shift in range(4):
+            cell = Obj("cell", cls=cls)
+            cell.set("points", [exact.vec(*pts[(k + shift) % 4]) for k in range(4)])
+            try:
+                n_ = exact.evaluator(repo, fn.module).call_funcinfo(fn, [cell])
+            except (Raised, NotEvaluable) as err:
+                raise AnalysisError(f"QuadCell.normal not evaluable over exact rational corners ({label}, numbering shifted by {shift}): {err}") from err
+            if not isinstance(n_, exact.Vec):
+                raise AnalysisError(f"QuadCell.normal gives {n_!r} on the exact model")
+            got.append(tuple(exact.value(x) for x in n_.c))
+        zero = [k for k, g in enumerate(got) if not any(g)]
+
+        def same_direction(a, b):
+            cross = (a[1] * b[2] - a[2] * b[1], a[2] * b[0] - a[0] * b[2], a[0] * b[1] - a[1] * b[0])
+            return not any(cross) and sum(x * y for x, y in zip(a, b)) > 0
+
+        r.check(
+            not zero and all(same_direction(got[0], g) for g in got[1:]),
+            fn,
+            f"{label}: one normal for the four numberings",
+            f"QuadCell.normal of a quad {label} {pts} is {[tuple(str(x) for x in g) for g in got]} for the numberings starting at corner 0, 1, 2, 3: the face normal is taken from the triangle at the corner that happens to "
+            "be number 0" + (f" - which has no area for numbering {zero} (0/0: 'Degenerate Cell', or rounding noise after a rigid motion)" if zero else "") + ", so the same face scores differently depending on its numbering",
+            fn.node,
+            key=f"normal:{label}",
+        )
+    return r
+
+
+quad_normal_symmetric.rule_id = "C14.QUAD-NORMAL-SYMMETRIC"
+
+
+RULES = [edge_set, side_table, uniform, face_symmetry, no_stale_cache, trig_domain, shape_only, stretch_monotone, scale_free_guards, angle_arguments, no_memo, row_norms, centre_symmetric, no_axis_extents, quad_normal_symmetric]
